@@ -168,44 +168,52 @@ static inline void __verif_trap(void)
 		__vlv; })
 #endif
 
+/* the location expression is evaluated ONCE into a local pointer, as in the real macros (CBMC 6.11 also mis-resolves a
+ * doubly indirect volatile location such as *(&ds->ds_refs->ds_handler[k]) when it is dereferenced in place) */
 #define os_atomic_load(p, m) ({ \
-		_os_atomic_basetypeof(p) __vl = __VERIF_LOADVAL(p); \
+		__typeof__(p) __vpl = (p); \
+		_os_atomic_basetypeof(p) __vl = __VERIF_LOADVAL(__vpl); \
 		__VERIF_SET_LOAD_MO(VMO_##m); \
-		if (VMO_##m != VMO_relaxed && VMO_##m != VMO_dependency) __verif_event(EV_LOAD, VMO_##m, (p), (unsigned long long)__vl, 0); \
+		if (VMO_##m != VMO_relaxed && VMO_##m != VMO_dependency) __verif_event(EV_LOAD, VMO_##m, __vpl, (unsigned long long)__vl, 0); \
 		__vl; })
 #define os_atomic_store(p, v, m) ({ \
+		__typeof__(p) __vps = (p); \
 		_os_atomic_basetypeof(p) __vsv = (v); \
-		_os_atomic_basetypeof(p) __vso = __VERIF_LOADVAL(p); \
-		__verif_commit((p), __vso, __vsv, VMO_##m); \
-		*(p) = __vsv; (void)0; })
+		_os_atomic_basetypeof(p) __vso = __VERIF_LOADVAL(__vps); \
+		__verif_commit(__vps, __vso, __vsv, VMO_##m); \
+		*__vps = __vsv; (void)0; })
 #define os_atomic_xchg(p, v, m) ({ \
+		__typeof__(p) __vpx = (p); \
 		_os_atomic_basetypeof(p) __vxv = (v); \
-		_os_atomic_basetypeof(p) __vxo = __VERIF_LOADVAL(p); \
-		__verif_commit((p), __vxo, __vxv, VMO_##m); \
-		*(p) = __vxv; __vxo; })
+		_os_atomic_basetypeof(p) __vxo = __VERIF_LOADVAL(__vpx); \
+		__verif_commit(__vpx, __vxo, __vxv, VMO_##m); \
+		*__vpx = __vxv; __vxo; })
 #define os_atomic_cmpxchgv(p, e, v, g, m) ({ \
+		__typeof__(p) __vpc = (p); \
 		_os_atomic_basetypeof(p) __vce = (e); \
 		_os_atomic_basetypeof(p) __vcv = (v); \
-		_os_atomic_basetypeof(p) __vco = __VERIF_LOADVAL(p); \
+		_os_atomic_basetypeof(p) __vco = __VERIF_LOADVAL(__vpc); \
 		_Bool __vb = (__vco == __vce); \
-		if (__vb) { __verif_commit((p), __vco, __vcv, VMO_##m); *(p) = __vcv; } \
+		if (__vb) { __verif_commit(__vpc, __vco, __vcv, VMO_##m); *__vpc = __vcv; } \
 		*(g) = __vco; __vb; })
 #define os_atomic_cmpxchg(p, e, v, m) ({ \
 		_os_atomic_basetypeof(p) __vcg; os_atomic_cmpxchgv(p, e, v, &__vcg, m); })
 #define os_atomic_cmpxchgvw(p, e, v, g, m) os_atomic_cmpxchgv(p, e, v, g, m)
 
 #define _os_atomic_c11_op(p, v, m, o, op) ({ \
+		__typeof__(p) __vpo = (p); \
 		_os_atomic_basetypeof(p) __vv = (v); \
-		_os_atomic_basetypeof(p) __voo = __VERIF_LOADVAL(p); \
+		_os_atomic_basetypeof(p) __voo = __VERIF_LOADVAL(__vpo); \
 		_os_atomic_basetypeof(p) __vr = (_os_atomic_basetypeof(p))((unsigned long long)__voo op (unsigned long long)__vv); \
-		__verif_commit((p), __voo, __vr, VMO_##m); \
-		*(p) = __vr; __vr; })
+		__verif_commit(__vpo, __voo, __vr, VMO_##m); \
+		*__vpo = __vr; __vr; })
 #define _os_atomic_c11_op_orig(p, v, m, o, op) ({ \
+		__typeof__(p) __vpo = (p); \
 		_os_atomic_basetypeof(p) __vv = (v); \
-		_os_atomic_basetypeof(p) __voo = __VERIF_LOADVAL(p); \
+		_os_atomic_basetypeof(p) __voo = __VERIF_LOADVAL(__vpo); \
 		_os_atomic_basetypeof(p) __vr = (_os_atomic_basetypeof(p))((unsigned long long)__voo op (unsigned long long)__vv); \
-		__verif_commit((p), __voo, __vr, VMO_##m); \
-		*(p) = __vr; __voo; })
+		__verif_commit(__vpo, __voo, __vr, VMO_##m); \
+		*__vpo = __vr; __voo; })
 #define os_atomic_add(p, v, m)      _os_atomic_c11_op((p), (v), m, add, +)
 #define os_atomic_add_orig(p, v, m) _os_atomic_c11_op_orig((p), (v), m, add, +)
 #define os_atomic_sub(p, v, m)      _os_atomic_c11_op((p), (v), m, sub, -)
